@@ -232,10 +232,459 @@ Proof.
   cbn [cons accts funds]. pose proof I as (ND & RO & RF).
   pose proof (find_con_cid _ _ _ Hx) as Hc.
   eapply upd_row_inv; eauto.
-  - pose proof (find_con_In _ _ _ Hx) as Hin. destruct (RO x Hin) as [A B].
+  - pose proof (find_con_In _ _ _ Hx) as Hin. destruct (RO x Hin) as [A B]. rewrite Hc in B.
     split; cbn [crev clocked cuse cid].
     + rewrite usum_uadd. unfold usum at 2; cbn. lia.
     + rewrite uFund_uadd, fsum_fund_add, Hc, N.eqb_refl. cbn. lia.
   - intros c' Hne. rewrite fsum_fund_add. destruct (c =? c') eqn:E; [lia|lia].
   - apply refs_fund_add; [exact RF|congruence].
 Qed.
+
+(** * account spending: distributeRHP3AccountUsage *)
+Lemma take_spec u rem u' rem' m :
+  take u rem = (u', rem', m) -> u = u' + m /\ rem = rem' + m.
+Proof. unfold take. intros H; inversion H; subst. lia. Qed.
+
+Lemma dist_row_spec u amt u' rem add :
+  dist_row u amt = (u', rem, add) ->
+  rem + usum add = amt /\ uFund add = 0 /\ uRisk add = 0 /\ atotal u' + usum add = atotal u.
+Proof.
+  unfold dist_row.
+  destruct (take (aSto u) amt) as [[s1 r1] m1] eqn:T1.
+  destruct (take (aIng u) r1) as [[s2 r2] m2] eqn:T2.
+  destruct (take (aEgr u) r2) as [[s3 r3] m3] eqn:T3.
+  destruct (take (aRR u) r3) as [[s4 r4] m4] eqn:T4.
+  destruct (take (aRW u) r4) as [[s5 r5] m5] eqn:T5.
+  destruct (take (aRpc u) r5) as [[s6 r6] m6] eqn:T6.
+  apply take_spec in T1, T2, T3, T4, T5, T6.
+  intros H; inversion H; subst; clear H. unfold usum, atotal; cbn. lia.
+Qed.
+
+Definition moved_rel (fs fs' : list frow) (cs cs' : list crow) : Prop :=
+  map cid cs' = map cid cs /\
+  forall c r, find_con c cs = Some r -> exists r', find_con c cs' = Some r' /\
+     crev r' = crev r /\ clocked r' = clocked r /\ usum (cuse r') = usum (cuse r) /\
+     uRisk (cuse r') = uRisk (cuse r) /\
+     uFund (cuse r') + fsum c fs = uFund (cuse r) + fsum c fs'.
+
+Lemma moved_rel_refl fs cs : moved_rel fs fs cs cs.
+Proof. split; [reflexivity|]. intros c r H; exists r; repeat split; auto. Qed.
+
+Lemma con_move_spec cs c spent add cs' :
+  con_move cs c spent add = Ok cs' -> usum add = spent -> uFund add = 0 -> uRisk add = 0 ->
+  map cid cs' = map cid cs /\
+  forall c' r, find_con c' cs = Some r -> exists r', find_con c' cs' = Some r' /\
+     crev r' = crev r /\ clocked r' = clocked r /\ usum (cuse r') = usum (cuse r) /\
+     uRisk (cuse r') = uRisk (cuse r) /\
+     uFund (cuse r') + (if c' =? c then spent else 0) = uFund (cuse r).
+Proof.
+  unfold con_move. destruct (find_con c cs) as [x|] eqn:F; [|discriminate].
+  intros H Hs Hf Hk. bind_inv H. inversion H; subst cs'; clear H.
+  set (F' := fun x0 : crow => mkC (cid x0) (crev x0) (clocked x0) _).
+  assert (HF : forall r, cid (F' r) = cid r) by reflexivity.
+  split; [now apply map_cid_upd|].
+  intros c' r Hr. destruct (c' =? c) eqn:E.
+  - assert (c' = c) by lia; subst c'. rewrite F in Hr; inversion Hr; subst r.
+    exists (F' x). split; [now apply find_upd_same|].
+    subst F'; cbn [crev clocked cuse]. repeat split.
+    + rewrite usum_uadd. unfold usum in *; cbn. lia.
+    + cbn. lia.
+    + rewrite uFund_uadd; cbn. lia.
+  - exists r. split; [rewrite find_upd_other; auto; lia|]. repeat split; lia.
+Qed.
+
+Lemma distribute_spec a fs : forall u cs fs' cs',
+  distribute a u fs cs = Ok (fs', cs') ->
+  moved_rel fs fs' cs cs' /\ (forall f', In f' fs' -> exists f, In f fs /\ fcon f' = fcon f).
+Proof.
+  induction fs as [|f t IH]; intros u cs fs' cs' H; cbn [distribute] in H.
+  - inversion H; subst. split; [apply moved_rel_refl|intros ? []].
+  - destruct ((facct f =? a) && negb (famt f =? 0)) eqn:E.
+    + destruct (dist_row u (famt f)) as [[u' rem] add] eqn:D.
+      apply dist_row_spec in D. destruct D as (D1 & D3 & D4 & D5).
+      assert (D2 : usum add = famt f - rem) by lia.
+      bind_inv H. destruct x0 as [t' cs2]. inversion H; subst fs' cs'; clear H.
+      apply con_move_spec in B; auto. destruct B as [M1 M2].
+      apply IH in B0. destruct B0 as [[R1 R2] R3].
+      split; [split|].
+      * congruence.
+      * intros c r Hr. destruct (M2 c r Hr) as (r1 & F1 & A1 & A2 & A3 & A4 & A5).
+        destruct (R2 c r1 F1) as (r2 & F2 & B1 & B2 & B3 & B4 & B5).
+        exists r2. split; [exact F2|]. repeat split; try congruence.
+        cbn [fsum]. destruct (rem =? 0) eqn:Z; cbn [fsum fcon famt];
+          destruct (fcon f =? c) eqn:Ec; rewrite N.eqb_sym in Ec; rewrite Ec in A5; lia.
+      * intros f' Hf'. destruct (rem =? 0).
+        -- destruct (R3 f' Hf') as (g & G1 & G2). exists g; split; [now right|exact G2].
+        -- destruct Hf' as [<-|Hf']; [exists f; split; [now left|reflexivity]|].
+           destruct (R3 f' Hf') as (g & G1 & G2). exists g; split; [now right|exact G2].
+    + bind_inv H. destruct x as [t' cs1]. inversion H; subst fs' cs'; clear H.
+      apply IH in B. destruct B as [[R1 R2] R3].
+      split; [split; [exact R1|]|].
+      * intros c r Hr. destruct (R2 c r Hr) as (r2 & F2 & B1 & B2 & B3 & B4 & B5).
+        exists r2. split; [exact F2|]. repeat split; auto.
+        cbn [fsum]. destruct (fcon f =? c); lia.
+      * intros f' [<-|Hf']; [exists f; split; [now left|reflexivity]|].
+        destruct (R3 f' Hf') as (g & G1 & G2). exists g; split; [now right|exact G2].
+Qed.
+
+Lemma in_map_find_con c cs : In c (map cid cs) -> exists r, find_con c cs = Some r.
+Proof.
+  induction cs as [|x t IH]; cbn; [tauto|].
+  destruct (cid x =? c) eqn:E; [eauto|].
+  intros [H|H]; [lia|auto].
+Qed.
+
+Lemma moved_rel_inv s fs' cs' accts' :
+  Inv s -> moved_rel (funds s) fs' (cons s) cs' ->
+  (forall f', In f' fs' -> exists f, In f (funds s) /\ fcon f' = fcon f) ->
+  Inv (mkS cs' accts' fs').
+Proof.
+  intros (ND & RO & RF) [M1 M2] P. split; [|split]; cbn.
+  - now rewrite M1.
+  - intros r' Hr'.
+    assert (ND' : NoDup (map cid cs')) by now rewrite M1.
+    destruct (in_map_find_con (cid r') (cons s)) as (r & Fr); [rewrite <- M1; now apply in_map|].
+    destruct (M2 _ _ Fr) as (r2 & F2 & A1 & A2 & A3 & A4 & A5).
+    rewrite (In_find_con cs' r' ND' Hr') in F2. inversion F2; subst r2.
+    destruct (RO r (find_con_In _ _ _ Fr)) as [B1 B2].
+    rewrite (find_con_cid _ _ _ Fr) in B2.
+    split; [congruence|lia].
+  - intros f' Hf'. destruct (P f' Hf') as (f & Hf & E). rewrite E.
+    specialize (RF f Hf). destruct (find_con (fcon f) (cons s)) as [r|] eqn:Fr; [|contradiction].
+    destruct (M2 _ _ Fr) as (r2 & F2 & _). congruence.
+Qed.
+
+(* DebitAccount *)
+Lemma debit_store_inv s a u s' : Inv s -> debit_store s a u = Ok s' -> Inv s'.
+Proof.
+  intros I H. unfold debit_store in H.
+  destruct (alookup a (accts s)) as [bal|]; [|discriminate].
+  destruct (bal <? atotal u); [discriminate|].
+  bind_inv H. destruct x as [fs cs]. inversion H; subst s'; clear H.
+  apply distribute_spec in B. destruct B as [M P].
+  eapply moved_rel_inv; eauto.
+Qed.
+
+(** * validation functions: what an accepted revision guarantees about the host's valid payout *)
+Lemma lock_ok s c r : lock s c = Ok r -> find_con c (cons s) = Some r.
+Proof.
+  unfold lock. destruct (find_con c (cons s)) as [x|]; [|discriminate].
+  destruct (rn (crev x) =? max64); [discriminate|]. intros H; inversion H; reflexivity.
+Qed.
+
+Lemma validate_revision_ok cur r pay coll paid burn :
+  validate_revision cur r pay coll = Ok (paid, burn) ->
+  vh r = vh cur + paid /\ pay <= paid /\ burn <= coll.
+Proof.
+  unfold validate_revision. intros H. bind_inv H. inversion H; subst; clear H. lia.
+Qed.
+
+Lemma validate_payment_ok cur r pay : validate_payment cur r pay = Ok tt -> vh r = vh cur + pay.
+Proof. unfold validate_payment. intros H. bind_inv H. lia. Qed.
+
+Lemma validate_clearing_ok cur final fp paid :
+  validate_clearing cur final fp = Ok paid -> vh final = vh cur + paid /\ fp <= paid.
+Proof. unfold validate_clearing. intros H. bind_inv H. inversion H; subst; clear H. lia. Qed.
+
+Lemma validate_program_ok cur r sto coll burn :
+  validate_program cur r sto coll = Ok burn -> vh r = vh cur.
+Proof. unfold validate_program. intros H. bind_inv H. lia. Qed.
+
+Lemma clearing_ok cur a b final : clearing cur a b = Ok final -> vh final = b.
+Proof. unfold clearing. destruct (rn cur =? max64); [discriminate|]. intros H; inversion H; reflexivity. Qed.
+
+Lemma insert_con_find s r s1 c x :
+  insert_con s r = Ok s1 -> find_con c (cons s) = Some x -> find_con c (cons s1) = Some x.
+Proof.
+  unfold insert_con. destruct (find_con (cid r) (cons s)); [discriminate|].
+  intros H F; inversion H; subst; cbn. rewrite find_con_app, F. reflexivity.
+Qed.
+
+(** * handlers *)
+Lemma form2_inv s c price maxColl fc s' : Inv s -> form2 s c price maxColl fc = Ok s' -> Inv s'.
+Proof.
+  intros I H. unfold form2 in H. bind_inv H.
+  eapply insert_con_inv; [exact I|exact H| |]; cbn; [unfold usum; cbn; lia|reflexivity].
+Qed.
+
+Lemma renew_store_inv s c final cu c' r' locked ru s' x :
+  Inv s -> renew_store s c final cu c' r' locked ru = Ok s' ->
+  find_con c (cons s) = Some x ->
+  vh r' = locked + usum ru -> uFund ru = 0 ->
+  vh final = vh (crev x) + usum cu -> uFund cu = 0 -> Inv s'.
+Proof.
+  intros I H Hx A1 A2 A3 A4. unfold renew_store in H. bind_inv H.
+  eapply revise_con_inv; [| exact H | eapply insert_con_find; eauto | exact A3 | exact A4].
+  eapply insert_con_inv; eauto.
+Qed.
+
+Lemma renew2_inv s c c' b p sp cp mc fs ex fr fh fc s' :
+  Inv s -> renew2 s c c' b p sp cp mc fs ex fr fh fc = Ok s' -> Inv s'.
+Proof.
+  intros I H. unfold renew2 in H. bind_inv H.
+  apply lock_ok in B. apply clearing_ok in B0. apply validate_clearing_ok in B1. destruct B1 as [V1 V2].
+  eapply renew_store_inv; eauto; cbn; try reflexivity; unfold usum; cbn; lia.
+Qed.
+
+Lemma renew3_inv s c c' rc p w k mc fs ex fr fh fc s' :
+  Inv s -> renew3 s c c' rc p w k mc fs ex fr fh fc = Ok s' -> Inv s'.
+Proof.
+  intros I H. unfold renew3 in H. bind_inv H.
+  apply lock_ok in B. apply clearing_ok in B0. apply validate_clearing_ok in B1. destruct B1 as [V1 V2].
+  eapply renew_store_inv; eauto; cbn; try reflexivity; unfold usum; cbn; lia.
+Qed.
+
+Lemma pay2_inv s c cost p ts s' : Inv s -> pay2 s c cost p ts = Ok s' -> Inv s'.
+Proof.
+  intros I H. unfold pay2 in H. bind_inv H. destruct x1 as [paid burn].
+  apply lock_ok in B. apply validate_revision_ok in B1. destruct B1 as (V1 & V2 & V3).
+  eapply revise_con_inv; [exact I|exact H|exact B| |].
+  - rewrite V1. f_equal. unfold rctotal in *.
+    destruct (rcBase cost + rcSto cost + rcIng cost + rcEgr cost <=? paid) eqn:E; [|lia].
+    destruct ts; unfold usum, usage_of_cost; cbn; lia.
+  - destruct ts; reflexivity.
+Qed.
+
+Lemma fund3_inv s c a fcst mb p s' : Inv s -> fund3 s c a fcst mb p = Ok s' -> Inv s'.
+Proof.
+  intros I H. unfold fund3 in H. bind_inv H. destruct x1.
+  apply lock_ok in B. apply validate_payment_ok in B1.
+  eapply credit_store_inv; eauto. lia.
+Qed.
+
+Lemma process_payment_inv s pay s1 a max :
+  Inv s -> process_payment s pay = Ok (s1, a, max) -> Inv s1.
+Proof.
+  intros I H. destruct pay as [c refund p|a' amount]; cbn [process_payment] in H.
+  - bind_inv H. destruct x1. inversion H; subst; clear H.
+    apply lock_ok in B. apply validate_payment_ok in B1.
+    eapply credit_store_inv; eauto. lia.
+  - bind_inv H. destruct (balance s a' <? amount); [discriminate|]. inversion H; subst; exact I.
+Qed.
+
+Lemma of_res_inv s r : Inv s -> (forall s', r = Ok s' -> Inv s') -> Inv (fst (of_res s r)).
+Proof. intros I H. destruct r; cbn; auto. Qed.
+
+Lemma simple3_inv s pay cost : Inv s -> Inv (fst (simple3 s pay cost)).
+Proof.
+  intros I. unfold simple3.
+  destruct (process_payment s pay) as [[[s1 a] max]| |] eqn:P; cbn; auto.
+  pose proof (process_payment_inv _ _ _ _ _ I P) as I1.
+  destruct (spend max a0 (mkA cost 0 0 0 0 0)) as [u1|]; cbn; auto.
+  destruct (debit_store s1 a u1) eqn:D; cbn; auto.
+  eapply debit_store_inv; eauto.
+Qed.
+
+Lemma exec3_inv s pay pc ic prog fin : Inv s -> Inv (fst (exec3 s pay pc ic prog fin)).
+Proof.
+  intros I. unfold exec3.
+  destruct (process_payment s pay) as [[[s1 a] max]| |] eqn:P; cbn; auto.
+  pose proof (process_payment_inv _ _ _ _ _ I P) as I1.
+  destruct (spend max a0 (mkA ic 0 0 0 0 0)) as [u0'|]; cbn; auto.
+  match goal with |- context [match ?L with Ok _ => _ | Err _ => _ | Panic => _ end] => destruct L as [orow| |] eqn:LK end; cbn; auto.
+  destruct (run_prog max rc0 u0' prog) as [[cost u] failed].
+  destruct failed.
+  - destruct (debit_store s1 a _) eqn:D; cbn; auto. eapply debit_store_inv; eauto.
+  - match goal with |- context [match ?L with Ok _ => _ | Err _ => _ | Panic => _ end] => destruct L as [s2| |] eqn:FR end; cbn; auto.
+    assert (I2 : Inv s2).
+    { destruct (existsb ifin prog); [|inversion FR; subst; exact I1].
+      destruct orow as [r|]; [|discriminate].
+      bind_inv FR.
+      (* the row was read under the lock of the state after the payment *)
+      assert (Fr : find_con (cid r) (cons s1) = Some r).
+      { destruct (existsb (fun i : instr => icon i || ifin i) prog); [|discriminate].
+        destruct pc as [c|]; [|discriminate]. bind_inv LK. inversion LK; subst.
+        apply lock_ok in B1. now rewrite (find_con_cid _ _ _ B1). }
+      apply validate_program_ok in B0.
+      eapply revise_con_inv; eauto. cbn. unfold usum; cbn. lia. }
+    destruct (debit_store s2 a u) eqn:D; cbn; auto. eapply debit_store_inv; eauto.
+Qed.
+
+Lemma step_out_inv s o : Inv s -> Inv (fst (step_out s o)).
+Proof.
+  intros I. destruct o; cbn [step_out].
+  - apply of_res_inv; auto. intros; eapply form2_inv; eauto.
+  - apply of_res_inv; auto. intros; eapply renew2_inv; eauto.
+  - apply of_res_inv; auto. intros; eapply pay2_inv; eauto.
+  - apply of_res_inv; auto. intros; eapply pay2_inv; eauto.
+  - apply of_res_inv; auto. intros; eapply pay2_inv; eauto.
+  - apply of_res_inv; auto. intros; eapply fund3_inv; eauto.
+  - now apply simple3_inv.
+  - now apply exec3_inv.
+  - apply of_res_inv; auto. intros; eapply renew3_inv; eauto.
+Qed.
+
+Definition runs (s : state) (l : list op) : state := fold_left (fun s o => fst (step s o)) l s.
+
+Lemma step_fst s o : fst (step s o) = fst (step_out s o).
+Proof. unfold step. destruct (step_out s o); reflexivity. Qed.
+
+Lemma runs_inv l : forall s, Inv s -> Inv (runs s l).
+Proof.
+  induction l as [|o t IH]; intros s I; [exact I|].
+  cbn. apply IH. rewrite step_fst. now apply step_out_inv.
+Qed.
+
+(* C10, v1: after any sequence of RPCs, for every contract the valid host payout of the latest
+   signed revision is the locked collateral plus the recorded usage categories *)
+Lemma v1_conservation l r :
+  In r (cons (runs init l)) ->
+  vh (crev r) = clocked r + (uRpc (cuse r) + uSto (cuse r) + uIng (cuse r) + uEgr (cuse r) +
+                            uRR (cuse r) + uRW (cuse r) + uFund (cuse r)).
+Proof.
+  intros H. destruct (runs_inv l init Inv_init) as (_ & RO & _). exact (proj1 (RO r H)).
+Qed.
+
+(* the unspent account funding of a contract is what its funding rows still hold *)
+Lemma v1_funding_backed l r :
+  In r (cons (runs init l)) -> uFund (cuse r) = fsum (cid r) (funds (runs init l)).
+Proof.
+  intros H. destruct (runs_inv l init Inv_init) as (_ & RO & _). exact (proj2 (RO r H)).
+Qed.
+
+(** * per-RPC exactness: the locked collateral of a contract is fixed when it is formed *)
+Definition keeps (s s' : state) : Prop :=
+  forall c r, find_con c (cons s) = Some r ->
+    exists r', find_con c (cons s') = Some r' /\ clocked r' = clocked r.
+
+Lemma keeps_refl s : keeps s s.
+Proof. intros c r H; eauto. Qed.
+Lemma keeps_trans a b c : keeps a b -> keeps b c -> keeps a c.
+Proof.
+  intros H1 H2 k r F. destruct (H1 _ _ F) as (r1 & F1 & E1). destruct (H2 _ _ F1) as (r2 & F2 & E2).
+  exists r2; split; [exact F2|congruence].
+Qed.
+
+Lemma insert_con_keeps s r s' : insert_con s r = Ok s' -> keeps s s'.
+Proof. intros H c x F. exists x; split; [eapply insert_con_find; eauto|reflexivity]. Qed.
+
+Lemma upd_keeps s c F accts' fs' :
+  (forall r, cid (F r) = cid r) -> (forall r, clocked (F r) = clocked r) ->
+  keeps s (mkS (upd_con c F (cons s)) accts' fs').
+Proof.
+  intros H1 H2 k r Fk. cbn [cons]. destruct (N.eq_dec k c) as [->|Hne].
+  - exists (F r). split; [now apply find_upd_same|apply H2].
+  - exists r. split; [rewrite find_upd_other; auto|reflexivity].
+Qed.
+
+Lemma revise_con_keeps s c r u s' : revise_con s c r u = Ok s' -> keeps s s'.
+Proof.
+  unfold revise_con. destruct (find_con c (cons s)); [|discriminate].
+  intros H; inversion H; subst. now apply upd_keeps.
+Qed.
+
+Lemma credit_store_keeps s a c r cost amount s' : credit_store s a c r cost amount = Ok s' -> keeps s s'.
+Proof.
+  unfold credit_store. intros H. bind_inv H. inversion H; subst s'; clear H.
+  apply revise_con_keeps in B. intros k y F. destruct (B k y F) as (y' & F' & E). exists y'; auto.
+Qed.
+
+Lemma debit_store_keeps s a u s' : debit_store s a u = Ok s' -> keeps s s'.
+Proof.
+  unfold debit_store. destruct (alookup a (accts s)) as [bal|]; [|discriminate].
+  destruct (bal <? atotal u); [discriminate|]. intros H. bind_inv H. destruct x as [fs cs].
+  inversion H; subst s'; clear H. apply distribute_spec in B. destruct B as [[M1 M2] _].
+  intros k r F. destruct (M2 _ _ F) as (r' & F' & _ & E & _). exists r'; auto.
+Qed.
+
+Lemma process_payment_keeps s pay s1 a max : process_payment s pay = Ok (s1, a, max) -> keeps s s1.
+Proof.
+  destruct pay as [c refund p|a' amount]; cbn [process_payment]; intros H.
+  - bind_inv H. destruct x1. inversion H; subst; clear H. eapply credit_store_keeps; eauto.
+  - bind_inv H. destruct (balance s a' <? amount); [discriminate|]. inversion H; subst. apply keeps_refl.
+Qed.
+
+Lemma renew_store_keeps s c final cu c' r' locked ru s' :
+  renew_store s c final cu c' r' locked ru = Ok s' -> keeps s s'.
+Proof.
+  unfold renew_store. intros H. bind_inv H.
+  eapply keeps_trans; [eapply insert_con_keeps; eauto|eapply revise_con_keeps; eauto].
+Qed.
+
+Lemma of_res_keeps s r : (forall s', r = Ok s' -> keeps s s') -> keeps s (fst (of_res s r)).
+Proof. intros H. destruct r; cbn; auto using keeps_refl. Qed.
+
+Lemma step_out_keeps s o : keeps s (fst (step_out s o)).
+Proof.
+  destruct o; cbn [step_out].
+  - apply of_res_keeps. intros s' H. unfold form2 in H. bind_inv H. eapply insert_con_keeps; eauto.
+  - apply of_res_keeps. intros s' H. unfold renew2 in H. bind_inv H. eapply renew_store_keeps; eauto.
+  - apply of_res_keeps. intros s' H. unfold pay2 in H. bind_inv H. destruct x1. eapply revise_con_keeps; eauto.
+  - apply of_res_keeps. intros s' H. unfold pay2 in H. bind_inv H. destruct x1. eapply revise_con_keeps; eauto.
+  - apply of_res_keeps. intros s' H. unfold pay2 in H. bind_inv H. destruct x1. eapply revise_con_keeps; eauto.
+  - apply of_res_keeps. intros s' H. unfold fund3 in H. bind_inv H. destruct x1. eapply credit_store_keeps; eauto.
+  - unfold simple3.
+    destruct (process_payment s pay) as [[[s1 a] max]| |] eqn:P; cbn; try apply keeps_refl.
+    pose proof (process_payment_keeps _ _ _ _ _ P) as K1.
+    destruct (spend max a0 (mkA cost 0 0 0 0 0)) as [u1|]; cbn; auto.
+    destruct (debit_store s1 a u1) eqn:D; cbn; auto.
+    eapply keeps_trans; [exact K1|eapply debit_store_keeps; eauto].
+  - unfold exec3.
+    destruct (process_payment s pay) as [[[s1 a] max]| |] eqn:P; cbn; try apply keeps_refl.
+    pose proof (process_payment_keeps _ _ _ _ _ P) as K1.
+    destruct (spend max a0 (mkA initCost 0 0 0 0 0)) as [u0'|]; cbn; auto.
+    match goal with |- context [match ?L with Ok _ => _ | Err _ => _ | Panic => _ end] => destruct L as [orow| |] eqn:LK end; cbn; auto.
+    destruct (run_prog max rc0 u0' prog) as [[cost u] failed].
+    destruct failed.
+    + destruct (debit_store s1 a _) eqn:D; cbn; auto.
+      eapply keeps_trans; [exact K1|eapply debit_store_keeps; eauto].
+    + match goal with |- context [match ?L with Ok _ => _ | Err _ => _ | Panic => _ end] => destruct L as [s2| |] eqn:FR end; cbn; auto.
+      assert (K2 : keeps s1 s2).
+      { destruct (existsb ifin prog); [|inversion FR; subst; apply keeps_refl].
+        destruct orow as [r|]; [|discriminate]. bind_inv FR. eapply revise_con_keeps; eauto. }
+      destruct (debit_store s2 a u) eqn:D; cbn.
+      * eapply keeps_trans; [exact K1|eapply keeps_trans; [exact K2|eapply debit_store_keeps; eauto]].
+      * eapply keeps_trans; eauto.
+      * eapply keeps_trans; eauto.
+  - apply of_res_keeps. intros s' H. unfold renew3 in H. bind_inv H. eapply renew_store_keeps; eauto.
+Qed.
+
+(* Every RPC, accepted or refused, with any renter-chosen values: a contract that exists before
+   it still exists after it with the same locked collateral, and its valid host payout moved by
+   exactly what its recorded usage moved — nothing the renter paid is dropped or booked twice. *)
+Lemma v1_rpc_exact l o c r :
+  find_con c (cons (runs init l)) = Some r ->
+  exists r', find_con c (cons (fst (step (runs init l) o))) = Some r' /\
+    clocked r' = clocked r /\
+    vh (crev r') + usum (cuse r) = vh (crev r) + usum (cuse r').
+Proof.
+  intros F. pose proof (runs_inv l init Inv_init) as I.
+  pose proof (step_out_inv _ o I) as I'. rewrite step_fst.
+  destruct (step_out_keeps (runs init l) o c r F) as (r' & F' & E).
+  exists r'. split; [exact F'|split; [exact E|]].
+  destruct I as (_ & RO & _). destruct I' as (_ & RO' & _).
+  destruct (RO r (find_con_In _ _ _ F)) as [A _]. destruct (RO' r' (find_con_In _ _ _ F')) as [A' _]. lia.
+Qed.
+
+(* account spending only moves value between the categories of the contracts that funded the
+   account: revision, locked collateral, Σ usage and risked collateral of every contract stay *)
+Lemma v1_debit_moves s a u s' c r :
+  debit_store s a u = Ok s' -> find_con c (cons s) = Some r ->
+  exists r', find_con c (cons s') = Some r' /\ crev r' = crev r /\ clocked r' = clocked r /\
+    usum (cuse r') = usum (cuse r) /\ uRisk (cuse r') = uRisk (cuse r).
+Proof.
+  unfold debit_store. destruct (alookup a (accts s)) as [bal|]; [|discriminate].
+  destruct (bal <? atotal u); [discriminate|]. intros H F. bind_inv H. destruct x as [fs cs].
+  inversion H; subst s'; clear H. apply distribute_spec in B. destruct B as [[M1 M2] _].
+  destruct (M2 _ _ F) as (r' & F' & E1 & E2 & E3 & E4 & E5). exists r'. cbn [cons].
+  repeat split; auto.
+Qed.
+
+(** * a concrete history (non-vacuity) *)
+Fixpoint tr_v1 (s : state) (l : list op) : list (op * obs) :=
+  match l with
+  | [] => []
+  | o :: t => let '(s', m) := step s o in (o, m) :: tr_v1 s' t
+  end.
+
+Definition demo_v1 : list op :=
+  [ Form2 1 100 1000000 (mkFC 10000 600 10000 600 0);
+    (* write costing 60, the renter pays 100; the host burns 40 of its collateral *)
+    Write2 1 (mkRC 10 20 30 0 40) (mkProp 2 9900 700 9900 560 140);
+    Fund3 1 1 1 1000000 (mkProp 3 9399 1201 9399 1061 140);
+    (* a ReadRegistry program paid by contract (50, of which 30 are spent; refund account 2) *)
+    Exec3 (PayContract 1 2 (mkProp 4 9349 1251 9349 1111 140)) None 5
+          [mkI KRegRead (mkRC 10 7 3 5 0) true true false false] (mkProp 0 0 0 0 0 0);
+    (* a program paid by account whose instruction fails after it was paid for: storage refunded *)
+    Exec3 (PayAccount 1 100) None 5 [mkI KPlain (mkRC 10 20 0 0 0) true false false false] (mkProp 0 0 0 0 0 0);
+    Renew3 1 2 8 100 0 0 1000000 0 0 9349 1251 (mkFC 5000 408 5000 408 0) ].
